@@ -53,7 +53,8 @@ theorem sort_perm_invariant {xs ys : List Ixn} (h : KeysNodup xs) (hp : xs.Perm 
 
 /-- Every history of writes (config entries applied or deleted, upsert / delete / legacy-create
     mutations, legacy rows set or deleted; accepted or rejected, in any mix) leaves the store
-    well formed. `Op.local`: legacy table rows have no peer. -/
+    well formed. `Op.local`: legacy table rows have no peer and name both ends (what `Intention.Validate`
+    enforces; memdb's unique (source, destination) index does not cover rows with an empty name). -/
 theorem reachable_store_wf (cfgMode : Bool) (ops : List Op) (ho : ∀ o ∈ ops, o.local) :
     StoreWF (run { cfgMode := cfgMode } ops) :=
   storeWF_run (storeWF_empty cfgMode) ops ho
@@ -243,7 +244,7 @@ theorem entries_in_any_order_agree (es es' : List Entry)
 
 /-- Legacy table rows with distinct ids, written in any order: same answers. -/
 theorem legacy_rows_in_any_order_agree (rs rs' : List (Name × Ixn)) (hp : rs.Perm rs')
-    (hd : rs.Pairwise fun a b => a.1 ≠ b.1) (hloc : ∀ x ∈ rs, x.2.peer = [])
+    (hd : rs.Pairwise fun a b => a.1 ≠ b.1) (hloc : ∀ x ∈ rs, x.2.peer = [] ∧ x.2.src ≠ [] ∧ x.2.dst ≠ [])
     {a b : Store} (ha : runE { cfgMode := false } (lsetOps rs) = some a)
     (hb : runE { cfgMode := false } (lsetOps rs') = some b) :
     (∀ i, i ∈ flatten a ↔ ∃ x ∈ rs, i = normRow x.2) ∧ SameAnswers a b := by
@@ -267,7 +268,7 @@ theorem legacy_rows_in_any_order_agree (rs rs' : List (Name × Ixn)) (hp : rs.Pe
     rows (any ids, any order) and through upsert mutations (any order) gives the same answers. -/
 theorem legacy_and_config_entry_agree (ws : List (Name × Src)) (rs : List (Name × Ixn))
     (hloc : ∀ w ∈ ws, w.2.peer = []) (hd : ws.Pairwise fun a b => ¬ (a.1 = b.1 ∧ a.2.name = b.2.name))
-    (hrd : rs.Pairwise fun a b => a.1 ≠ b.1) (hrl : ∀ x ∈ rs, x.2.peer = [])
+    (hrd : rs.Pairwise fun a b => a.1 ≠ b.1) (hrl : ∀ x ∈ rs, x.2.peer = [] ∧ x.2.src ≠ [] ∧ x.2.dst ≠ [])
     (hsame : ∀ i, (∃ w ∈ ws, i = ixnOf w.1 w.2) ↔ (∃ x ∈ rs, i = normRow x.2))
     {a b : Store} (ha : runE { cfgMode := true } (upOps ws) = some a)
     (hb : runE { cfgMode := false } (lsetOps rs) = some b) : SameAnswers a b := by
